@@ -72,20 +72,52 @@ theorem vm_push_handler_effect (vm : Rs.Vm) (pre post : List (BitVec 8)) (lo1 hi
   have e3 : vm.ip + 2 + 2 + (((u16 lo1 hi1 : Nat) : Int) + ((u16 lo2 hi2 : Nat) : Int)) = vm.ip + 4 + ((u16 lo1 hi1 : Nat) + (u16 lo2 hi2 : Nat) : Int) := by omega
   rw [e2, e3, e1]
 
+/-- `frames.truncate(n)` leaves `min frames n` frames. -/
+theorem truncateFrames_frames (vm : Rs.Vm) (n : Int) : (Rs.Vm.truncateFrames vm n).frames = min vm.frames n := by
+  unfold Rs.Vm.truncateFrames
+  by_cases h : vm.frames ≤ n
+  · simp only [h, if_true]; omega
+  · simp only [h, if_false]
+    split <;> (simp only []; omega)
+
+/-- `frames.truncate(n)` changes nothing but the frames. -/
+theorem truncateFrames_other (vm : Rs.Vm) (n : Int) :
+    (Rs.Vm.truncateFrames vm n).stack = vm.stack ∧ (Rs.Vm.truncateFrames vm n).handlers = vm.handlers
+      ∧ (Rs.Vm.truncateFrames vm n).errorIp = vm.errorIp ∧ (Rs.Vm.truncateFrames vm n).handling = vm.handling
+      ∧ (Rs.Vm.truncateFrames vm n).ip = vm.ip ∧ (Rs.Vm.truncateFrames vm n).closed = vm.closed
+      ∧ (Rs.Vm.truncateFrames vm n).returnIp = vm.returnIp ∧ (Rs.Vm.truncateFrames vm n).returnValue = vm.returnValue
+      ∧ (Rs.Vm.truncateFrames vm n).curId = vm.curId ∧ (Rs.Vm.truncateFrames vm n).parked = vm.parked := by
+  unfold Rs.Vm.truncateFrames
+  by_cases h : vm.frames ≤ n
+  · simp only [h, if_true, and_self]
+  · simp only [h, if_false]
+    split <;> simp
+
+/-- `frames.truncate(n)` looks at, and changes, the frames only: it commutes with changes of the stack, the handlers and the log of
+closed cells. -/
+theorem truncateFrames_with (vm : Rs.Vm) (st : List Rs.Value) (hd : List Rs.Handler) (cl : List (Int × Int)) (n : Int) :
+    Rs.Vm.truncateFrames { vm with stack := st, handlers := hd, closed := cl } n
+      = { (Rs.Vm.truncateFrames vm n) with stack := st, handlers := hd, closed := cl } := by
+  unfold Rs.Vm.truncateFrames
+  by_cases h : vm.frames ≤ n
+  · simp only [h, if_true]
+  · simp only [h, if_false]
+    split <;> rfl
+
 /-- **unwind contract** (C08): with handlers `rest ++ [h]` (h innermost) and the exception value on top of the stack, unwinding
-leaves `rest`, at most `h.frame_count` frames, the first `h.init_stack_size` slots unchanged plus the exception, continues at
-`h.catch_ip`; the captured variables above `h.init_stack_size` are closed BEFORE the stack is cut (the close call saw the whole
-stack); the exception-in-flight flag is kept exactly when the statement has no catch block. -/
+leaves `rest`, at most `h.frame_count` frames (`frames.truncate`: the frames above are dropped, `truncateFrames_frames`), the first
+`h.init_stack_size` slots unchanged plus the exception, continues at `h.catch_ip`; the captured variables above `h.init_stack_size`
+are closed BEFORE the stack is cut (the close call saw the whole stack); the exception-in-flight flag is kept exactly when the
+statement has no catch block. -/
 theorem vm_unwind_contract (vm : Rs.Vm) (rest : List Rs.Handler) (h : Rs.Handler) (s : List Rs.Value) (exc : Rs.Value)
     (hh : vm.handlers = rest ++ [h]) (hs : vm.stack = s ++ [exc])
     (hk0 : 0 ≤ h.init_stack_size) (hk : h.init_stack_size.toNat ≤ s.length) (hfr : 0 < min vm.frames h.frame_count) :
     Fns.vm_unwind_stack vm =
-      .ok (.ok (), { vm with
+      .ok (.ok (), { (Rs.Vm.truncateFrames vm h.frame_count) with
         handlers := rest,
         stack := s.take h.init_stack_size.toNat ++ [exc],
-        frames := min vm.frames h.frame_count,
         handling := decide (h.finally_ip = h.catch_ip),
-        errorIp := if decide (h.finally_ip = h.catch_ip) then vm.errorIp else none,
+        errorIp := if decide (h.finally_ip = h.catch_ip) then (Rs.Vm.truncateFrames vm h.frame_count).errorIp else none,
         frameIp := h.catch_ip,
         ip := h.catch_ip,
         closed := vm.closed ++ [(h.init_stack_size, ((s.length + 1 : Nat) : Int))] }) := by
@@ -103,14 +135,19 @@ theorem vm_unwind_contract (vm : Rs.Vm) (rest : List Rs.Handler) (h : Rs.Handler
     congr 2
     rw [List.take_append_of_le_length hk]
   rw [htr]
-  simp only [Rs.M.bind_ok, Fns.handler_has_catch_block, Rs.Vm.push, Rs.Vm.truncateFrames, Rs.Vm.closeUpvalues]
+  simp only [Rs.M.bind_ok, Fns.handler_has_catch_block, Rs.Vm.push, Rs.Vm.closeUpvalues]
+  have hfrm := truncateFrames_frames vm h.frame_count
+  have hnf : ¬ ((Rs.Vm.truncateFrames vm h.frame_count).frames ≤ 0) := by rw [hfrm]; omega
+  have hnf' : ¬ (min vm.frames h.frame_count ≤ 0) := by omega
   by_cases hc : h.finally_ip = h.catch_ip
-  · simp [hc, Rs.Vm.setFrameIp, Rs.Vm.loadFrame, hs]
-    have : ¬ (min vm.frames h.frame_count ≤ 0) := by omega
-    simp [this]
-  · simp [hc, Rs.Vm.setFrameIp, Rs.Vm.loadFrame, hs]
-    have : ¬ (min vm.frames h.frame_count ≤ 0) := by omega
-    simp [this]
+  · simp only [hc, decide_true, Bool.not_true, Bool.false_eq_true, if_false, if_true]
+    rw [truncateFrames_with]
+    simp only [Rs.Vm.setFrameIp, hnf, hnf', if_false, Rs.M.bind_ok, Rs.Vm.loadFrame, hs, hfrm]
+    simp
+  · simp only [hc, decide_false, Bool.not_false, if_true, Bool.false_eq_true, if_false]
+    rw [truncateFrames_with]
+    simp only [Rs.Vm.setFrameIp, hnf, hnf', if_false, Rs.M.bind_ok, Rs.Vm.loadFrame, hs, hfrm]
+    simp
 
 /-- … and with no handler on this fiber the run ends with the error made from the value; nothing is cleaned up here. -/
 theorem vm_unwind_uncaught (vm : Rs.Vm) (s : List Rs.Value) (exc : Rs.Value) (hh : vm.handlers = []) (hs : vm.stack = s ++ [exc]) :
@@ -172,6 +209,9 @@ theorem vm_end_finally_rethrows_uncaught (vm : Rs.Vm) (s : List Rs.Value) (exc :
 #print axioms vm_pop_handler_effect
 #print axioms fiber_push_handler_effect
 #print axioms vm_push_handler_effect
+#print axioms truncateFrames_frames
+#print axioms truncateFrames_with
+#print axioms truncateFrames_other
 #print axioms vm_unwind_contract
 #print axioms vm_unwind_uncaught
 #print axioms vm_throw_effect
